@@ -364,6 +364,8 @@ type fetchWorld struct {
 	gets     int
 	sets     int
 	contacts []string
+	cancelAt int
+	cancel   context.CancelFunc
 }
 
 func (w *fetchWorld) RoundTrip(req *http.Request) (*http.Response, error) {
@@ -371,7 +373,13 @@ func (w *fetchWorld) RoundTrip(req *http.Request) (*http.Response, error) {
 	u := req.URL.String()
 	w.contacts = append(w.contacts, u)
 	a, ok := w.server[u]
+	cancelNow := w.cancelAt > 0 && len(w.contacts) >= w.cancelAt
+	cancel := w.cancel
 	w.mu.Unlock()
+	if cancelNow {
+		cancel()
+		return nil, req.Context().Err()
+	}
 	reply := func(code int, body []byte) (*http.Response, error) {
 		return &http.Response{StatusCode: code, Status: fmt.Sprintf("%d", code), Proto: "HTTP/1.1", ProtoMajor: 1, ProtoMinor: 1,
 			Header: http.Header{}, Body: io.NopCloser(bytes.NewReader(body)), ContentLength: int64(len(body)), Request: req}, nil
@@ -539,6 +547,8 @@ type fetchOp struct {
 	plant func(p *crlPool) *corecrl.Bundle
 	on    bool
 	name  string
+	// fetch only: the caller's context is cancelled when the k-th request of this fetch reaches the transport (0 = never)
+	cancelAt int
 }
 
 type fetchCfg struct {
@@ -595,8 +605,42 @@ func runFetchHistory(r *Runner, pool *crlPool, cfg fetchCfg, init func(w *fetchW
 			if d := time.Since(pool.t0); d > 30*time.Minute {
 				panic("run too slow for the clock abstraction")
 			}
+			absWorld := w.abs(now, append(w.mentioned(), op.url))
+			ctx, cancelCtx := context.WithCancel(context.Background())
+			w.cancelAt, w.cancel = op.cancelAt, cancelCtx
+			if op.cancelAt > 0 {
+				// abstractly: the requests of this fetch are, in order, the URL asked for and then the plain-http locations its list
+				// advertises; from the k-th on they fail (the context is done)
+				order := []string{op.url}
+				if a, ok := w.server[op.url]; ok && a.item != nil {
+					for _, p := range a.item.fresh.points {
+						for _, n := range p.names {
+							if n.uri != "" {
+								order = append(order, n.uri)
+							}
+						}
+					}
+				}
+				saved := map[string]srvAns{}
+				for i, u := range order {
+					if i >= op.cancelAt-1 {
+						if _, done := saved[u]; !done {
+							saved[u] = w.server[u]
+							w.server[u] = srvAns{kind: "transport-error"}
+						}
+					}
+				}
+				absWorld = w.abs(now, append(w.mentioned(), op.url))
+				for u, a := range saved {
+					if a.kind == "" {
+						delete(w.server, u)
+					} else {
+						w.server[u] = a
+					}
+				}
+			}
 			in := map[string]any{"cfg": map[string]any{"hasCache": cfg.hasCache, "discard": cfg.discard},
-				"world": w.abs(now, append(w.mentioned(), op.url)), "url": op.url}
+				"world": absWorld, "url": op.url}
 			impl := map[string]any{}
 			var b *corecrl.Bundle
 			var ferr error
@@ -621,7 +665,7 @@ func runFetchHistory(r *Runner, pool *crlPool, cfg fetchCfg, init func(w *fetchW
 						}
 						done <- x
 					}()
-					x.b, x.err = f.Fetch(context.Background(), op.url)
+					x.b, x.err = f.Fetch(ctx, op.url)
 				}()
 				select {
 				case x := <-done:
@@ -635,6 +679,8 @@ func runFetchHistory(r *Runner, pool *crlPool, cfg fetchCfg, init func(w *fetchW
 					fetchHung.Store(true)
 				}
 			}()
+			cancelCtx()
+			w.cancelAt = 0
 			if hung {
 				r.Submit(&Case{ID: fmt.Sprintf("%s-%d.%d", label, idx, step), K: "fetch", Class: cfg.String() + "/" + label, local: true,
 					localClause: "fetch_does_not_return_once_the_transport_has_answered", In: in, Impl: map[string]any{"outcome": "hang"},
@@ -752,6 +798,22 @@ func genC18(r *Runner) {
 					w.server[strings.Replace(u, "HTTP://", "http://", 1)] = a
 				}
 				add(cfg, init, []fetchOp{{kind: "fetch", url: u, name: "fetch " + u}}, "base-url:"+k)
+			}
+		}
+	}
+	// 1b. the caller's context is cancelled when the first / second / third request of a fetch arrives, then a fault-free fetch
+	for _, cfg := range cfgs {
+		for _, sh := range []freshSpec{absent, points(full(uri(urlD1))), simple, points(full(uri(urlD3), uri(urlD1), uri(urlD2))), points(full(uri(urlD1)), full(uri(urlD2)))} {
+			for _, dw := range deltaWorlds {
+				for k := 1; k <= 3; k++ {
+					sh, dw, k := sh, dw, k
+					init := func(w *fetchWorld) {
+						dw.set(w)
+						w.server[urlBase] = crlAns(1, "fresh", sh)
+					}
+					add(cfg, init, []fetchOp{{kind: "fetch", url: urlBase, name: fmt.Sprintf("fetch, context cancelled at request %d", k), cancelAt: k},
+						{kind: "fetch", url: urlBase, name: "fetch"}}, fmt.Sprintf("cancel-at-%d:%s/%s", k, sh.name(), dw.name))
+				}
 			}
 		}
 	}
